@@ -11,12 +11,21 @@ from proto import bitsf, fbits, run_lines
 MATCHERS = {}
 
 
+def regen_leaves():
+    """CmGen/Leaves.lean: the numeric functions and constants of the source as they read now (the `source_*`
+    theorems of CmProps/C10tie.lean identify them with the model)"""
+    from translate import leaves
+    leaves.generate()
+
+
 def valid(c):
     return len(c) == 3 and all(isinstance(x, int) and 0 <= x <= 255 for x in c)
 
 
 def check(run):
-    run.proof = proof_status("C10")
+    run.proof = proof_status("C10", regenerate=regen_leaves)
+    from translate import leaves as _leaves
+    run.extra["source_translation"] = _leaves.summary()
     q = run.quick()
     repo_import()
     from cm_colors.core import conversions as cv
